@@ -69,6 +69,7 @@ int evutil_getaddrinfo(const char *nodename, const char *servname, const struct 
 }
 
 #define VPD_TYPED_HOSTS 1
+#define VPD_CLONE_COPY 1
 #include "dns_typed_alloc_pre.h"
 #include "evdns.c"
 #include "dns_typed_alloc_post.h"
@@ -127,7 +128,7 @@ static void c38_setup(void)
 }
 static void c38_cleanup(void)
 {
-	evdns_base_free(c38_base, 0);
+	evdns_base_free(c38_base, 1);      /* (live lookups are failed with a shutdown error so that their state is released) */
 	c38_run_deferred();
 	VP_ASSERT(vpa_live_nodes == 0, "C38: addrinfo nodes neither handed to the callback nor released (leak)");
 }
